@@ -4,6 +4,8 @@ package main
 
 import (
 	"fmt"
+	"io/ioutil"
+	"os"
 	"regexp"
 	"runtime"
 	"sort"
@@ -78,15 +80,17 @@ func shortFn(fn string) string {
 // frame of its stack: stable no matter where a busy goroutine happens to be sampled).
 // Goroutines whose entry is a harness function are not the node's and are left out; the
 // harness watches those with explicit watchdogs.
+var stackBuf = make([]byte, 1<<20) // reused: the monitor must not allocate much itself
+
 func goroutineSigs() map[string]*gInfo {
-	buf := make([]byte, 1<<20)
+	var buf []byte
 	for {
-		n := runtime.Stack(buf, true)
-		if n < len(buf) {
-			buf = buf[:n]
+		n := runtime.Stack(stackBuf, true)
+		if n < len(stackBuf) {
+			buf = stackBuf[:n]
 			break
 		}
-		buf = make([]byte, 2*len(buf))
+		stackBuf = make([]byte, 2*len(stackBuf))
 	}
 	out := map[string]*gInfo{}
 	for _, blk := range strings.Split(string(buf), "\n\n") {
@@ -103,7 +107,16 @@ func goroutineSigs() map[string]*gInfo {
 		}
 		entry, inner := "", ""
 		for _, ln := range lines[1:] {
-			if strings.HasPrefix(ln, "\t") || strings.HasPrefix(ln, "created by ") {
+			if strings.HasPrefix(ln, "created by ") && entry == "" {
+				// no frames available: fall back to the creator
+				fn := strings.TrimPrefix(ln, "created by ")
+				if i := strings.Index(fn, " in goroutine"); i > 0 {
+					fn = fn[:i]
+				}
+				entry = "created-by:" + fn
+				continue
+			}
+			if ln == "" || strings.HasPrefix(ln, "\t") || strings.HasPrefix(ln, "created by ") {
 				continue
 			}
 			fn := ln
@@ -118,7 +131,7 @@ func goroutineSigs() map[string]*gInfo {
 		if entry == "" || strings.HasPrefix(entry, "main.") || strings.HasPrefix(entry, "verif/") {
 			continue
 		}
-		k := shortFn(entry)
+		k := shortFn(strings.Replace(entry, "created-by:"+modPath+"/", "created-by:", 1))
 		gi := out[k]
 		if gi == nil {
 			gi = &gInfo{inside: map[string]int{}}
@@ -162,7 +175,21 @@ func newGorMon() *gorMon {
 		prev = n
 		time.Sleep(10 * time.Millisecond)
 	}
+	// a goroutine that is on a CPU while the sample is taken may be reported without a stack;
+	// the baseline is therefore the per-entry maximum over several samples
 	s := goroutineSigs()
+	for i := 0; i < 8; i++ {
+		time.Sleep(7 * time.Millisecond)
+		for k, v := range goroutineSigs() {
+			if old := s[k]; old == nil || v.n > old.n {
+				s[k] = v
+			}
+		}
+	}
+	if d := os.Getenv("C15_DEBUG_GOR"); d != "" && d != "1" {
+		n := runtime.Stack(stackBuf, true)
+		_ = ioutil.WriteFile(d, stackBuf[:n], 0644)
+	}
 	return &gorMon{base: population(s), baseSigs: s}
 }
 
@@ -171,6 +198,7 @@ func newGorMon() *gorMon {
 func (g *gorMon) settle(wait time.Duration) (map[string]*gInfo, int) {
 	deadline := time.Now().Add(wait)
 	everBusy := map[string]int{}
+	lastShape, since := "", time.Now()
 	for {
 		now := goroutineSigs()
 		ex := map[string]*gInfo{}
@@ -191,7 +219,24 @@ func (g *gorMon) settle(wait time.Duration) (map[string]*gInfo, int) {
 		if len(ex) == 0 {
 			return nil, population(now)
 		}
-		if time.Now().After(deadline) {
+		// an excess that consists of blocked goroutines only and has not changed for 1.5 s (longer
+		// than any deadline of the scripted transport) will not go away: no need to sit out the rest
+		shape, anyBusy := "", false
+		sk := make([]string, 0, len(ex))
+		for k := range ex {
+			sk = append(sk, k)
+		}
+		sort.Strings(sk)
+		for _, k := range sk {
+			shape += fmt.Sprintf("%s=%d;", k, ex[k].n)
+			if ex[k].busy > 0 {
+				anyBusy = true
+			}
+		}
+		if shape != lastShape || anyBusy {
+			lastShape, since = shape, time.Now()
+		}
+		if time.Now().After(deadline) || time.Since(since) > 1500*time.Millisecond {
 			for k, gi := range ex {
 				if everBusy[k] > gi.busy {
 					gi.busy = everBusy[k]
@@ -199,7 +244,7 @@ func (g *gorMon) settle(wait time.Duration) (map[string]*gInfo, int) {
 			}
 			return ex, population(now)
 		}
-		time.Sleep(10 * time.Millisecond)
+		time.Sleep(25 * time.Millisecond)
 	}
 }
 
@@ -217,6 +262,18 @@ func (g *gorMon) check(s Sink, surface string, wait time.Duration, wit interface
 		keys = append(keys, k)
 	}
 	sort.Strings(keys)
+	if os.Getenv("C15_DEBUG_GOR") != "" {
+		d := "baseline:"
+		for k, v := range g.baseSigs {
+			d += fmt.Sprintf(" %s=%d", k, v.n)
+		}
+		d += " | now:"
+		for k, v := range goroutineSigs() {
+			d += fmt.Sprintf(" %s=%d", k, v.n)
+		}
+		s.Note(d)
+	}
+	replace := false
 	for _, k := range keys {
 		gi := ex[k]
 		where := "busy"
@@ -229,11 +286,23 @@ func (g *gorMon) check(s Sink, surface string, wait time.Duration, wit interface
 			}
 			where = "blocked-in:" + best
 		}
+		if gi.busy > 0 {
+			replace = true // a goroutine that keeps computing spoils later measurements
+		} else {
+			// a goroutine blocked for good is inert: absorb it into the baseline and go on
+			b := g.baseSigs[k]
+			if b == nil {
+				b = &gInfo{inside: map[string]int{}}
+				g.baseSigs[k] = b
+			}
+			b.n += gi.n
+			g.base += gi.n
+		}
 		sig := k + ":" + where
 		s.Seen("leaked_goroutine_kinds", sig)
 		s.Stat("leaked_goroutines", int64(gi.n))
 		s.Violation("C15/goroutine-leak:"+sig,
-			fmt.Sprintf("%d goroutine(s) started as %s are still alive (%s) %v after the remote went away (surface %s; node goroutines %d, baseline %d)", gi.n, k, where, wait, surface, n, g.base), wit)
+			fmt.Sprintf("%d goroutine(s) started as %s are still alive (%s) after the remote went away and everything else settled (surface %s; node goroutines %d)", gi.n, k, where, surface, n), wit)
 	}
-	return false
+	return !replace
 }
